@@ -11,7 +11,7 @@ from common import Case
 TITLE = 'Board-settings files are read back as the boards that were written, in order'
 LEAN_TARGETS = ['BridgeVerif.Props.C17']
 REQUIRED = ['settings_round_trip', 'settings_document_is_json', 'settings_validate', 'pbn_import_round_trip',
-            'pbn_lines_of_text', 'first_occurrence_wins']
+            'pbn_import_round_trip_universal', 'pbn_lines_of_text', 'first_occurrence_wins', 'old_reader_defects']
 KEEP_FIRST = 1
 SHARDS = {'quick': 2, 'thorough': 16}
 RULE = ('JSON: documents of 0-6 boards written by the real JsonBoardSettingWriter (Unicode ids, partial deals, double-dummy tables '
